@@ -30,7 +30,7 @@ import (
 //     mouse / paste / focus registers must be exactly what the application last requested (resume-missing:<mode>,
 //     resume-extra:<mode>);
 //   * the raw call log of the FakeTty must follow the Tty contract (tty-order:<rule>);
-//   * a call that does not return within 10 s is class hang:<op>, a panic is class panic:<op>.
+//   * a call that does not return within 5 s is class hang:<op> (after 3 hangs the rest of the run is skipped), a panic is class panic:<op>.
 
 const modesInitialTitle = "shell" // what the user's terminal shows before the application starts
 
@@ -40,6 +40,13 @@ type modesShadow struct {
 	focus    bool
 	finished bool
 }
+
+// modesHangs counts the calls that never returned in this process.  A hung call keeps spinning (or blocking) in its own
+// goroutine, possibly holding the screen lock; after a few of them the verdict is clear and the remaining cases of the
+// run are skipped instead of each paying the watchdog.
+var modesHangs int
+
+const modesMaxHangs = 3
 
 // guard runs one API call with a watchdog; a panic or a hang becomes a finding instead of taking the run down.
 func guard(res *h.Result, name string, f func()) bool {
@@ -55,8 +62,9 @@ func guard(res *h.Result, name string, f func()) bool {
 			return false
 		}
 		return true
-	case <-time.After(10 * time.Second):
-		res.Findings = append(res.Findings, h.Finding{Class: "hang:" + name, Msg: name + " did not return within 10 s"})
+	case <-time.After(5 * time.Second):
+		modesHangs++
+		res.Findings = append(res.Findings, h.Finding{Class: "hang:" + name, Msg: name + " did not return within 5 s"})
 		return false
 	}
 }
@@ -182,6 +190,9 @@ func execModes(line string) (res h.Result) {
 	ti := drawTi(name, tc)
 	if ti == nil {
 		return h.Result{Obs: "no-entry"}
+	}
+	if modesHangs >= modesMaxHangs {
+		return h.Result{Obs: "SKIP not executed: earlier calls of this run never returned (hang findings above)"}
 	}
 	os.Setenv("LC_ALL", "en_US.UTF-8")
 	if alt {
@@ -467,7 +478,7 @@ func execModes(line string) (res h.Result) {
 		if guard(&res, "Fini", func() { scr.Fini() }) {
 			select {
 			case <-done:
-			case <-time.After(10 * time.Second):
+			case <-time.After(5 * time.Second):
 				addF("hang:PollEvent", "PollEvent does not return nil after Fini")
 			}
 			take("z", "Q")
